@@ -325,25 +325,85 @@ def _anchor_view(ctx):
     if ctx.tier != "quick":
         return None          # the thorough tier validates every family under the properties its mutants name
     files = _anchor_files().get(ctx.prop, set())
-    own_rules = {id(r) for r in PROPS[ctx.prop]["rules"] if id(r) not in _RAW}     # filtered views are re-run unfiltered
     have = {i.key for i in ctx.instances}
-    sub = _engine.Ctx(ctx.facts, ctx.root, ctx.prop, "anchor")
-    sub._attr_handlers = getattr(ctx, "_attr_handlers", None)
-    for r in _all_families():
-        if id(r) in own_rules:
-            continue
-        sub.run_rule(r)
+    insts, broken, analysed = _families_on_tree(ctx)
     added = 0
-    for i in sub.instances:
+    for i in insts:
         f = (i.where or "").split(":")[0]
         if f in files and i.key not in have:
             have.add(i.key)
             ctx.instances.append(i)
             added += 1
-    for b in getattr(sub, "broken", []):
-        ctx.note("anchor view: a rule family of another property could not run on this tree: %s" % b)
-    ctx.analysed_functions |= sub.analysed_functions
+    for b in broken:
+        ctx.note("anchor view: a rule family could not run on this tree: %s" % b)
+    ctx.analysed_functions |= analysed
     return {"anchor_view_instances": added, "anchor_files": sorted(files)}
+
+
+def _tree_digest(root):
+    """content hash of everything the verdicts depend on: the analysed sources and the checker itself"""
+    import hashlib
+    h = hashlib.sha256()
+    here = os.path.dirname(os.path.abspath(__file__))
+    roots = [os.path.join(root, d) for d in ("lib", "src", "xml", "scripts")] + [os.path.join(root, "CMakeLists.txt")]
+    roots += [os.path.join(here, d) for d in ("rules", "tables", "bin")] + [os.path.join(here, f) for f in
+              ("props.py", "facts.py", "engine.py", "gamafacts.cc", "instantiate_all.cpp", "compdb.py")]
+    roots.append(os.path.join(here, "..", "properties.jsonl"))
+    for r in roots:
+        if os.path.isfile(r):
+            paths = [r]
+        else:
+            paths = []
+            for dp, dn, fn in os.walk(r):
+                dn.sort()
+                if "__pycache__" in dp:
+                    continue
+                paths += [os.path.join(dp, f) for f in sorted(fn) if not f.endswith(".pyc")]
+        for pth in paths:
+            try:
+                with open(pth, "rb") as fh:
+                    h.update(pth.encode() + b"\0" + fh.read() + b"\0")
+            except OSError:
+                pass
+    return h.hexdigest()
+
+
+def _families_on_tree(ctx):
+    """All rule families evaluated once on this tree.  The result depends only on the tree and the checker, so it
+    is kept in a scratch cache keyed by their content hash: the seventeen checks of one tree share one evaluation
+    (the cache is an optimisation only - absent or unreadable, the families are simply run)."""
+    import pickle, tempfile
+    cache_dir = os.path.join(tempfile.gettempdir(), "gama_verif_anchor_cache")
+    key = None
+    try:
+        key = _tree_digest(ctx.root)
+        with open(os.path.join(cache_dir, key + ".pkl"), "rb") as fh:
+            data = pickle.load(fh)
+        insts = [_engine.Instance(*t) for t in data["instances"]]
+        return insts, data["broken"], set(data["analysed"])
+    except Exception:
+        pass
+    sub = _engine.Ctx(ctx.facts, ctx.root, "ALL", "anchor")
+    for r in _all_families():
+        sub.run_rule(r)
+    insts = sub.instances
+    broken = list(getattr(sub, "broken", []))
+    if key is not None:
+        try:
+            os.makedirs(cache_dir, exist_ok=True)
+            # keep the scratch cache small
+            old = sorted((os.path.getmtime(os.path.join(cache_dir, f)), f) for f in os.listdir(cache_dir))
+            for _, f in old[:-6]:
+                os.remove(os.path.join(cache_dir, f))
+            fd, tmp = tempfile.mkstemp(dir=cache_dir)
+            with os.fdopen(fd, "wb") as fh:
+                pickle.dump({"instances": [(i.rule, i.key, i.ok, i.where,
+                                            i.fn, i.msg, _engine.jsonable(i.detail)) for i in insts],
+                             "broken": broken, "analysed": sorted(sub.analysed_functions)}, fh)
+            os.replace(tmp, os.path.join(cache_dir, key + ".pkl"))
+        except Exception:
+            pass
+    return insts, broken, set(sub.analysed_functions)
 
 
 for _p in list(PROPS):
